@@ -9,6 +9,7 @@ OPS = {
     'withdraw': ('dec', 'WithdrawOnly'), 'borrow': ('dec', 'BorrowOnly'), 'withdraw_ignore_borrow_cap': ('dec', 'BypassBorrowLimit'),
     'withdraw_all': ('all', None), 'repay_all': ('all', None), 'close_balance': ('close', None),
 }
+EXTRA_OPS = ('claim_emissions', 'settle_emissions_and_get_transfer_amount')
 
 BAL = 'w*.0*'; BANK = 'w*.1*'
 
